@@ -61,8 +61,15 @@ pub fn random_req(rng: &mut Pcg64Mcg, max_steps: u64) -> Req {
     } else {
         (kt_finish, kt_ratio)
     };
+    // an infinite temperature (every defined proposal is accepted, an undefined one never), kept
+    // infinite by a ratio of zero
+    let (kt_start, kt_finish, kt_ratio) = if rng.gen_range(0, 25) == 0 {
+        (std::f64::INFINITY, None, Some(0.))
+    } else {
+        (kt_start, kt_finish, kt_ratio)
+    };
     let max_step = pick(rng, &[2e-6, 2e-5, 0.001, 0.01, 0.05, 0.5, 1.0]);
-    let convergence = pick(rng, &[None, None, Some(0.), Some(1e-3), Some(0.5), Some(10.), Some(-1.)]);
+    let convergence = pick(rng, &[None, None, Some(0.), Some(1e-3), Some(0.5), Some(10.), Some(-1.), Some(1e-18), Some(1e-300)]);
     Req {
         steps,
         inner,
@@ -170,6 +177,13 @@ pub fn scripted_suite(rng: &mut Pcg64Mcg, count: usize, max_steps: u64) -> Vec<R
             // accepted when positive
             if req.kt_start > 0. {
                 req.kt_start = 1e-3;
+            }
+            // now and then an infinite temperature: every defined proposal is accepted, the
+            // undefined ones ('U') still never
+            if k % 12 == 5 {
+                req.kt_start = std::f64::INFINITY;
+                req.kt_finish = None;
+                req.kt_ratio = Some(0.);
             }
             (
                 format!("scripted script={}.. tail={}", &s[..s.len().min(24)], tail),
@@ -442,6 +456,13 @@ pub fn real_suite(rng: &mut Pcg64Mcg, count: usize, max_steps: u64) -> Vec<Run> 
                 // real energies: keep temperatures in a sensible range
                 if r.kt_start > 0. && hard {
                     r.kt_start = pick(rng, &[1e-3, 0.05, 0.5]);
+                }
+                // a random walk at infinite temperature through the valid packings
+                if hard && k % 11 == 5 {
+                    r.kt_start = std::f64::INFINITY;
+                    r.kt_finish = None;
+                    r.kt_ratio = Some(0.);
+                    r.max_step = 0.2;
                 }
                 reqs.push(r);
             }
